@@ -106,14 +106,19 @@ def _owner_by_identity_and_defaults(col, rule="C11.R5"):
     if fn is None:
         # renamed / dissolved: judged where it went (the iter_expr_tasks_owner obligation names the test it expects)
         raise AnalysisError("tasks._check_root_owner not found -- cannot decide")
-    cmps = [n for n in ast.walk(fn) if isinstance(n, ast.Compare) and len(n.ops) == 1
-            and any(isinstance(x, ast.Attribute) and x.attr == "_owner" for x in [n.left] + n.comparators)]
-    if not cmps:
+    sx = sctx(repo, None, "_check_root_owner", "tasks", keep={"_check_root_owner"})
+    seen = set()
+    for nid in sx.cfg.nodes:
+        for c in sx.conds(nid):
+            for t_ in S.subterms(c):
+                if t_[:1] == ("cmp",) and any(x[:1] == ("attr",) and x[2] == "_owner" for x in (t_[2], t_[3])) \
+                        and ("const", "None") not in (t_[2], t_[3]):
+                    seen.add(t_)
+    if not seen:
         raise AnalysisError("tasks._check_root_owner: no comparison of an owner found -- cannot decide")
-    bad = [c for c in cmps if not isinstance(c.ops[0], (ast.Is, ast.IsNot))
-           and not any(isinstance(x, ast.Constant) and x.value is None for x in [c.left] + c.comparators)]
-    col.add(rule, "_check_root_owner#owner-compared-by-identity", not bad, m.loc(bad[0] if bad else fn),
-            "the root container of a target is recognised by identity of the reference object", A.src(bad[0]) if bad else "", positive=bool(bad))
+    bad = [t_ for t_ in seen if t_[1] not in ("is", "is not")]
+    col.add(rule, "_check_root_owner#owner-compared-by-identity", not bad, m.loc(fn),
+            "the root container of a target is recognised by identity of the reference object", S.show(bad[0]) if bad else "", positive=bool(bad))
     for meth in ("copy_expr_from", "load"):
         f = repo.method("Manager", meth)
         d = A.param_defaults(f).get("overwrite")
